@@ -26,6 +26,7 @@ proved (`database_resource_not_injective`), the collisions are characterised exa
 (`database_resource_collisions_exactly`) and injectivity is proved where it holds
 (`database_resource_injective_partial`).
 -/
+import Kap.Proofs.C20Ran
 import Kap.Proofs.C20Api
 import Kap.Proofs.C20Write
 namespace Kap.Props.C20
@@ -688,19 +689,18 @@ example :
 
 /-! ### the handler that RUNS is the one whose privilege was checked (routing method = authorised method) -/
 
-/-- STATED, NOT YET PROVED (kept as a `def …_stmt`, not counted): **the served handler's method is the authorised
-method**, for every configuration, request, set of headers and
+/-- **The served handler's method is the authorised method**, for every configuration, request, set of headers and
 depth of preview re-entry: when the chain (mux chosen by the wire method, `ranRoute wireMethod`) lets the handler of
 route `r` run, `r` is registered for the method on the wire, and some request `q` of the re-entry chain — same method,
 same credentials — passed `authenticate` for this very route and `authorizeRequest` for `r`'s OWN method on `q`'s
 path, which `r`'s pattern covers. -/
-def handler_that_runs_is_the_authorised_one_stmt : Prop :=
-  ∀ (cfg : Cfg) (hdrs : Headers) (fuel : Nat) (req : Req) (r : Route),
-    ranRoute wireMethod cfg hdrs fuel req = some r →
+theorem handler_that_runs_is_the_authorised_one (cfg : Cfg) (hdrs : Headers) (fuel : Nat) (req : Req) (r : Route)
+    (h : ranRoute wireMethod cfg hdrs fuel req = some r) :
     r.method = req.method ∧
     ∃ (q : Req) (u : Account) (w : Bool), q.method = req.method ∧ q.auth = req.auth ∧
       authenticate (routeRequiresAuth cfg r) cfg.svc q.auth = .inner u w ∧
-      authorizeRequest r.method q.path u = true ∧ pathMatch r.pattern q.path = true
+      authorizeRequest r.method q.path u = true ∧ pathMatch r.pattern q.path = true :=
+  ranRoute_wire_sound cfg hdrs fuel req r h
 
 example :
     (ranRoute wireMethod
